@@ -74,7 +74,7 @@ class Prop:
         sc = {"kind": kind}
         if kind == "from_future":
             sc.update({"future": rng.choice(["asyncio", "asyncio", "concurrent"]), "outcome": rng.choice(["result", "result", "exception", "cancel", "unsubscribe"]),
-                       "value": vt.gen_value(rng, 0.5), "subscribe_first": rng.random() < 0.7})
+                       "value": vt.gen_value(rng, 0.5), "subscribe_first": rng.random() < 0.7, "via_start_async": rng.random() < 0.25})
         elif kind in ("to_future", "await"):
             sc.update({"events": events, "timed": rng.random() < 0.5})
         elif kind == "run":
@@ -121,7 +121,8 @@ class Prop:
         box = {}
 
         def subscribe():
-            box["d"] = rx.from_future(fut).subscribe(lambda v: log.append(("N", v)), lambda e: log.append(("E", e)), lambda: log.append(("C", None)))
+            src = rx.start_async(lambda: fut) if sc.get("via_start_async") else rx.from_future(fut)
+            box["d"] = src.subscribe(lambda v: log.append(("N", v)), lambda e: log.append(("E", e)), lambda: log.append(("C", None)))
 
         if sc["outcome"] == "unsubscribe":
             subscribe()
